@@ -132,6 +132,14 @@ func TestReplay(t *testing.T) {
 	if err != nil {
 		t.Fatal(err)
 	}
+	if cf.Sub == "dry" {
+		var dc sim.Case
+		if err := json.Unmarshal(cf.Case, &dc); err != nil {
+			t.Fatal(err)
+		}
+		checkDry(t, dc)
+		return
+	}
 	if cf.Sub == "retryrun" {
 		var rc retrysim.Case
 		if err := json.Unmarshal(cf.Case, &rc); err != nil {
